@@ -2,8 +2,8 @@ package gosym
 
 import (
 	"regexp"
-	"sync"
 	"regexp/syntax"
+	"sync"
 	"unicode"
 
 	"verif/engine/sym"
